@@ -9,7 +9,7 @@ open VaxisModel.Model.EdRun VaxisModel.Gen.EditorLang
 /-- The regenerated TextField. -/
 def genTf : TfProg :=
   ⟨tfHandleEvent, tfCheckChanged, tfReset, tfInsertStringAtCursor, tfCursorTo, tfDeleteCharRightOfCursor,
-   tfDeleteCharLeftOfCursor, tfDeleteCursorToEndOfLine, tfInsertLoop, tfGraphemeCount, tfDraw⟩
+   tfDeleteCharLeftOfCursor, tfDeleteCursorToEndOfLine, tfInsertLoop, tfGraphemeCount, tfDraw, tfDrawCursorKey⟩
 
 /-- The regenerated textinput. -/
 def genTi : TiProg := ⟨tiSetContent, tiUpdate, tiResegment⟩
